@@ -586,6 +586,49 @@ class ConstEval:
     def _e_Dict(self, node, m, env):
         return {self.eval(k, m, env): self.eval(v, m, env) for k, v in zip(node.keys, node.values)}
 
+    def _comp_envs(self, generators, m, env):
+        """environments produced by the generators of a comprehension (finite, evaluable iterables only)"""
+        envs = [dict(env)]
+        for g in generators:
+            nxt = []
+            for e in envs:
+                it = self.eval(g.iter, m, e)
+                if isinstance(it, dict):
+                    it = list(it)
+                if not isinstance(it, (list, tuple, set, range)):
+                    raise Unknown(f"comprehension over {type(it).__name__}")
+                for item in it:
+                    e2 = dict(e)
+                    self._bind_target(g.target, item, e2)
+                    if all(self.eval(c, m, e2) for c in g.ifs):
+                        nxt.append(e2)
+            envs = nxt
+        return envs
+
+    def _bind_target(self, target, value, env):
+        if isinstance(target, ast.Name):
+            env[target.id] = value
+        elif isinstance(target, (ast.Tuple, ast.List)):
+            vals = list(value)
+            if len(vals) != len(target.elts):
+                raise Unknown("unpacking mismatch in comprehension")
+            for t, v in zip(target.elts, vals):
+                self._bind_target(t, v, env)
+        else:
+            raise Unknown("comprehension target")
+
+    def _e_ListComp(self, node, m, env):
+        return [self.eval(node.elt, m, e) for e in self._comp_envs(node.generators, m, env)]
+
+    def _e_GeneratorExp(self, node, m, env):
+        return [self.eval(node.elt, m, e) for e in self._comp_envs(node.generators, m, env)]
+
+    def _e_SetComp(self, node, m, env):
+        return {self.eval(node.elt, m, e) for e in self._comp_envs(node.generators, m, env)}
+
+    def _e_DictComp(self, node, m, env):
+        return {self.eval(node.key, m, e): self.eval(node.value, m, e) for e in self._comp_envs(node.generators, m, env)}
+
     def _e_UnaryOp(self, node, m, env):
         v = self.eval(node.operand, m, env)
         if isinstance(node.op, ast.USub):
